@@ -5,6 +5,7 @@ import (
 	"go/constant"
 	"go/token"
 	"go/types"
+	"regexp"
 	"sort"
 	"strings"
 
@@ -22,12 +23,26 @@ type wireItem struct {
 
 func (w wireItem) String() string { return w.Kind + "(" + w.Name + ")" }
 
+// seqString renders a sequence in canonical form: a length-prefixed string is
+// the same bytes on the wire as a varint length followed by the bytes, so
+// string(F) is written varint(len(F)), bytes(F).
 func seqString(s []wireItem) string {
 	var ps []string
 	for _, i := range s {
+		if i.Kind == "string" {
+			ps = append(ps, "varint(len("+i.Name+"))", "bytes("+i.Name+")")
+			continue
+		}
 		ps = append(ps, i.String())
 	}
 	return strings.Join(ps, ", ")
+}
+
+var stringItem = regexp.MustCompile(`string\((\w+)\)`)
+
+// canonSpec brings a sequence of the specification table into the same form.
+func canonSpec(s string) string {
+	return stringItem.ReplaceAllString(s, "varint(len($1)), bytes($1)")
 }
 
 // specWire: record -> value type -> sequence (Appendix A.2; H = hash-sized bytes).
@@ -295,7 +310,7 @@ func checkWireSeq(p *Program, r *Report) {
 		}
 		sort.Ints(vts)
 		for _, n := range vts {
-			want := specWire[tname][n]
+			want := canonSpec(specWire[tname][n])
 			setStr := func(m map[string]bool) string {
 				var ks []string
 				for k := range m {
